@@ -678,21 +678,29 @@ func allocWanted(tier string, c *caseSpec, b *built, seqPart bool) bool {
 	return (!c.Comp || c.Level == 1) && (cl == "ramp" || cl == "lowcomp")
 }
 
-// allocSegs is the segmentation set of the allocator dimension: thorough = the base's own set;
-// quick = one piece, the structural single cuts of the first and last two frames, byte-at-a-time
-// (wires <= 4 KiB) and fixed chunks chosen so that a frame arrives in many reads and its cached
-// prefix has to grow past 32, 64, .. bytes (3, 31) resp. past the 1 KiB / 4 KiB buckets (1021,
-// 4093).
+// allocSegs is the segmentation set of the allocator dimension. Quick: one piece, the structural
+// single cuts of the first and last two frames, byte-at-a-time (wires <= 4 KiB) and fixed chunks
+// chosen so that a frame arrives in many reads and its cached prefix has to grow past 32, 64, ..
+// bytes (3, 31) resp. past the 1 KiB / 4 KiB buckets (1021, 4093). Thorough: every single cut for
+// wires <= 300 B, the structural cuts of four frames at each end otherwise, byte-at-a-time
+// (wires <= 4 KiB), chunks of 3, 7, 31, 33, 1021, 4093 bytes.
 func allocSegs(tier string, base wsgen.SegOpt, b *built) wsgen.SegOpt {
+	if b.nFrames > 4096 {
+		// thorough only (allocWanted); the receiver is quadratic in the frames per call
+		return wsgen.SegOpt{AllSingleMax: -1, StructFrames: 1, Chunks: []int{4096}}
+	}
 	if tier == "thorough" {
-		return base
+		// byte-at-a-time stays at wires <= 4 KiB here: under the moving tracking allocator every
+		// one-byte Append relocates the whole cache and nothing is ever recycled (quadratic memory)
+		o := wsgen.SegOpt{AllSingleMax: 300, StructFrames: 4, BytesMax: 4096, Chunks: []int{3, 7, 31, 33, 1021, 4093}}
+		if len(b.wire.Bytes) > 16384 {
+			o.Chunks = []int{1021, 4093}
+		}
+		return o
 	}
 	o := wsgen.SegOpt{AllSingleMax: 0, StructFrames: 2, BytesMax: 4096, Chunks: []int{3, 31, 1021, 4093}}
 	if len(b.wire.Bytes) > 16384 {
 		o.Chunks = []int{1021, 4093}
-	}
-	if b.nFrames > 4096 {
-		o.BytesMax, o.AllSingleMax, o.Chunks = 0, -1, base.Chunks
 	}
 	return o
 }
@@ -994,7 +1002,7 @@ func main() {
 	}
 	vkit.Main(&vkit.Spec{
 		Property: "C12", Level: "model_checking",
-		Rule: "one case = (sender role, frame limit F, compression setting, message list, control-frame placement) x one segmentation of the sender's real wire bytes fed to a real receiver Conn.Parse; enumerated: F in {1,2,125,126,1000,32768} x lengths {0,1,2,125,126,127,65535,65536,F-1,F,F+1,2F,2F+1} x {text,binary} x both roles x {off, levels -2..9} x 4 content classes; F in {65535,65536,131072} x lengths {65535,65536,65537,F-1,F,F+1,2F+1} (64-bit length form; quick: compression {off,1} x content {ramp,lowcomp}); all sequences of 1-3 messages over a 6-message subset with ping/pong between or spliced inside the next fragmented message; (compression enabled locally, negotiated) in {(no,no),(yes,no),(yes,yes),(no,yes)} x receiver enabled/not x Conn.EnableWriteCompression usage {never, (true), (false)(true), alternating} x both roles x 18 message lists (thorough: 78); allocator in {tracking (grow in place), mempool.NewAligned(), tracking + MoveOnGrow, mempool.NewSTD()} for sender and receiver (quick: the other three for every sequence/variant/negotiation base and the single-message sub-matrix compression {off,1} x content {ramp,lowcomp}, over one piece, structural cuts of the first and last two frames, byte-at-a-time and chunks of 3/31/1021/4093 bytes; thorough: every base, the base's own segmentation set); segmentations: one piece, every single cut (wires <= 2 KiB; structural cuts otherwise), double cuts (all for wires <= 48 B, structural pairs otherwise), byte-at-a-time (wires <= 4 KiB), fixed chunks for long wires. A case is non-trivial when the wire has more than one frame, is compressed, is longer than 127 bytes or was fed in more than one Parse call. states = distinct private parser states after the Parse calls of the feed, transitions = Parse calls.",
+		Rule: "one case = (sender role, frame limit F, compression setting, message list, control-frame placement) x one segmentation of the sender's real wire bytes fed to a real receiver Conn.Parse; enumerated: F in {1,2,125,126,1000,32768} x lengths {0,1,2,125,126,127,65535,65536,F-1,F,F+1,2F,2F+1} x {text,binary} x both roles x {off, levels -2..9} x 4 content classes; F in {65535,65536,131072} x lengths {65535,65536,65537,F-1,F,F+1,2F+1} (64-bit length form; quick: compression {off,1} x content {ramp,lowcomp}); all sequences of 1-3 messages over a 6-message subset with ping/pong between or spliced inside the next fragmented message; (compression enabled locally, negotiated) in {(no,no),(yes,no),(yes,yes),(no,yes)} x receiver enabled/not x Conn.EnableWriteCompression usage {never, (true), (false)(true), alternating} x both roles x 18 message lists (thorough: 78); allocator in {tracking (grow in place), mempool.NewAligned(), tracking + MoveOnGrow, mempool.NewSTD()} for sender and receiver (quick: the other three for every sequence/variant/negotiation base and the single-message sub-matrix compression {off,1} x content {ramp,lowcomp}, over one piece, structural cuts of the first and last two frames, byte-at-a-time and chunks of 3/31/1021/4093 bytes; thorough: every base, over every single cut for wires <= 300 B, structural cuts of four frames at each end otherwise, byte-at-a-time and chunks of 3/7/31/33/1021/4093 bytes); segmentations: one piece, every single cut (wires <= 2 KiB; structural cuts otherwise), double cuts (all for wires <= 48 B, structural pairs otherwise), byte-at-a-time (wires <= 4 KiB), fixed chunks for long wires. A case is non-trivial when the wire has more than one frame, is compressed, is longer than 127 bytes or was fed in more than one Parse call. states = distinct private parser states after the Parse calls of the feed, transitions = Parse calls.",
 		Assumptions: []string{
 			"text messages carry valid UTF-8 (a text message with invalid UTF-8 is rejected by design, C13)",
 			"the receiver uses an inline executor; CloseAndClean is performed by the harness after a Parse error or once the implementation closed the conn, as the engine does",
